@@ -92,6 +92,12 @@ def build_inputs(tier):
 
     for s in ["x = not 'abc\n", "x = -'abc\n", "y = a if b else 'abc\n", "f(k='abc)\n", "lambda: 'x\n", "x = 'abc\n", "z = (1, 'q\n", "if a:\n    b\n  c\n", "w = [\n"] + list(c11.INVALID_SNIPPETS[:60]):
         cases.append((s, "exec", None))
+    # invalid programs whose specialised error is chosen INSIDE a left-recursive rule / a bracket (the diagnostic pass reads
+    # state that the wrappers keep): a `target = value` nested in an expression, misplaced keywords and stars in brackets
+    for s in ["[a = 1]\n", "(a = 1)\n", "x = [b = 2, 3]\n", "a[b = 1]\n", "{a.b = 2}\n", "while (f() = 1): pass\n", "f(a.b = 1)\n", "x = (y = z) + 1\n", "g(1 = 2)\n", "[i for i in (j = 2)]\n",
+              "x = a + (b = c) * d\n", "print(a b)\n", "x = [1, 2 3]\n", "f(**a, *b)\n", "f(x for x in y, 1)\n", "a.b.c(d e)[f]\n", "x = a + b * (c d)\n", "q = (yield = 1)\n", "t = (*a)\n"]:
+        cases.append((s, "exec", None))
+        cases.append(("ok = 1\n" + s, "exec", None))
     for s, m in list(base):
         cases.append((s, m, None))
         if r.random() < 0.5:
